@@ -229,7 +229,7 @@ func RunCodec(col *ev.Collector, subLen int) CodecStats {
 	{
 		bs := [][]byte{nil, {}, {0}, {0, 0}, {0, 1}, {1}, {0xff}, {0xff, 0}, {0xff, 0xff}, []byte("a"), []byte("a\x00"), []byte("ab"), []byte("12345678"), []byte("123456789"), []byte("1234567\x00"), []byte("12345678\x00")}
 		is := []int64{math.MinInt64, math.MinInt64 + 1, -1 << 32, -256, -1, 0, 1, 255, 256, 1 << 32, math.MaxInt64 - 1, math.MaxInt64}
-		fs := []float64{math.Inf(-1), -math.MaxFloat64, -1.5, -1, -math.SmallestNonzeroFloat64, 0, math.SmallestNonzeroFloat64, 0.5, 1, 1.5, math.MaxFloat64, math.Inf(1)}
+		fs := []float64{math.Inf(-1), -math.MaxFloat64, -1.5, -1, -math.SmallestNonzeroFloat64, math.Copysign(0, -1), 0, math.SmallestNonzeroFloat64, 0.5, 1, 1.5, math.MaxFloat64, math.Inf(1)}
 		type tup struct {
 			b []byte
 			i int64
